@@ -19,6 +19,15 @@ CHECKS = {
              "of the module body followed only by the generated trait+impl and the re-export (mod), or equal to the inherent impl's body (impl).",
         note=NOTE, technique="bounded-exhaustive enumeration of programs; token-tree comparison of recorded macro input vs output (identity model)",
         ref="DESIGN.md §3 C02"),
+    "C04": dict(
+        text="All 8 subsets S of three marker bounds x 5 declaration forms (inline, where, impl A+B, split, duplicated) x receiver by ref/by value "
+             "x 6 mock settings (none, mockall, mockall=false, mock_api only, mock_api+unimock, unimock=false) x both crate features for single fns, and "
+             "all 64 pairs (S1,S2) x receiver combinations x mock settings for two-fn modules (three-fn modules in thorough). Per state 48 runtime "
+             "availability probes `implements!(X: Tr)` / `implements!(Impl<X>: Tr)` over probe types implementing exactly each subset in three auto-trait "
+             "flavours (everything / Sync-only / Send-only) must equal the model's iff; plus a negative compile probe for 'static per declaration form.",
+        note=NOTE + " 'static is decided by a negative compile probe on one witness type (lifetimes are invisible to runtime probes).",
+        technique="exhaustive enumeration of bound-declaration programs on the real macro; runtime trait-availability truth table vs iff model",
+        ref="DESIGN.md §3 C04"),
     "C08": dict(
         text="Every module item word up to the bound (full 30-symbol alphabet: every visibility and every const/async/unsafe/extern "
              "qualifier combination on visible and private fns, structs+impls, nested mods, extern blocks, macro_rules, body-less "
@@ -62,7 +71,7 @@ CHECKS = {
         note=NOTE, technique="exhaustive path enumeration of the option state graph, metamorphic token-equality oracle on the real macro",
         ref="DESIGN.md §3 C17"),
     "C20": dict(
-        text="Every sequence with repetition over 8 representative invocations up to length 3 (quick) / 4 + all 720 permutations of six (thorough) "
+        text="Every sequence with repetition over 10 representative invocations up to length 3 (quick) / 4 + all 720 permutations of six (thorough) "
              "is expanded inside one compiler process per history; each invocation's recorded (attr, input, output) at every position must equal "
              "the record of the same invocation expanded alone. The corpus is also expanded under 6 environments x {alone, 16 concurrent processes}. "
              "Hash-seed independence is only sampled (R fresh processes) and reported as such.",
